@@ -39,6 +39,12 @@ def make_refused_cm(m: str):
     return pg.hyper.dynamic_evaluate('not callable')
   if m == 'detour':
     return pg.detour([('not a class', CA)])
+  if m == 'ldtypes':
+    return pg.JSONConvertible.load_types_for_deserialization('T1')      # a type NAME instead of a type
+  if m == 'catch':
+    return pg.catch_errors(123)
+  if m == 'wrap':
+    return pg.apply_wrappers([int])                                       # not a wrapper class
   raise ValueError(m)
 
 
@@ -569,7 +575,7 @@ class Worker(threading.Thread):
           cm.__enter__()
           self.stack.append((cmd[1], [], cm))
           self.outbox.put(('ok', {'out': 'entered'}))
-        except (TypeError, ValueError) as e:
+        except (TypeError, ValueError, AttributeError) as e:
           self.outbox.put(('ok', {'out': 'refused', 'error': type(e).__name__}))
         except Exception as e:  # pylint: disable=broad-except
           self.outbox.put(('error', f'{type(e).__name__}: {e}'))
